@@ -1098,7 +1098,48 @@ def c05_r6(ctx):
                 if h in dom.get(a, ()):
                     heads.add(h)
         it = {lp["header"] for lp in f.loops()}
+        # (not loops of the program: the poisoned states of an async function's state machine,
+        #  `assert(false, "resumed after completion / panic") -> self`)
+        heads = {h for h in heads if not (f.blocks[h]["term"]["k"] == "assert" and f.succ[h] == [h]
+                                          and str(f.blocks[h]["term"].get("msg", {}).get("text", "")).startswith("ResumedAfter"))}
         other = sorted(h for h in heads if h not in it)
+        # cycles without a loop head (entered at two places - the `while let .. .await` of an async
+        # state machine, which is re-entered through the resume switch): one per strongly connected
+        # component that contains no head
+        on_cycle = set()
+        for b in f.live:
+            seen, work = set(), list(f.succ[b])
+            while work:
+                x = work.pop()
+                if x in seen:
+                    continue
+                seen.add(x)
+                work.extend(f.succ[x])
+            if b in seen:
+                on_cycle.add(b)
+        comps = []
+        left = set(on_cycle)
+        while left:
+            b = min(left)
+            fwd, work = set(), [b]
+            while work:
+                x = work.pop()
+                if x in fwd:
+                    continue
+                fwd.add(x)
+                work.extend(y for y in f.succ[x] if y in on_cycle)
+            bwd, work = set(), [b]
+            while work:
+                x = work.pop()
+                if x in bwd:
+                    continue
+                bwd.add(x)
+                work.extend(y for y in f.pred[x] if y in on_cycle)
+            comp = fwd & bwd
+            comps.append(comp)
+            left -= comp
+        all_heads = {h for a in f.live for h in f.succ[a] if h in dom.get(a, ())}
+        other += sorted(min(c) for c in comps if not (c & all_heads))
         for h in sorted(heads & it):
             ctx.inst("iterator loop in %s" % fid, f.where(h))
             ctx.ok()
@@ -1106,6 +1147,7 @@ def c05_r6(ctx):
             continue
         ctx.saw(f)
         allowed = table.get(fid, {}).get("count", 0)
+
         for k, h in enumerate(other):
             ctx.inst("other loop in %s" % fid, f.where(h))
             if k < allowed:
